@@ -32,7 +32,8 @@ import (
 // Kind: 0 send; 1 script call ok_<CostK>; 2 script call fail_<CostK>; 3 script call of a function
 // that is not in the cost table; 4 contract call to an address that is no contract; 6 script call
 // whose function name is a built-in name (BName: 1 payFees 2 commit_settings_changes
-// 3 blobber_block_rewards 4 generate_challenge), cost CostK.
+// 3 blobber_block_rewards 4 generate_challenge), cost CostK; 7 script call of a fee-exempt function
+// (ExName: 1 pour 2 wait), cost CostK.
 type TxnSpec struct {
 	Client  int    `json:"c"`
 	Nonce   int64  `json:"n"`
@@ -42,6 +43,7 @@ type TxnSpec struct {
 	To      int    `json:"to,omitempty"`
 	CostK   int    `json:"cost,omitempty"`
 	BName   int    `json:"bn,omitempty"`
+	ExName  int    `json:"ex,omitempty"`
 	DateOff int64  `json:"dt,omitempty"`
 	BadSig  bool   `json:"badsig,omitempty"`
 	ValBig  bool   `json:"valbig,omitempty"`
@@ -55,6 +57,7 @@ type Case struct {
 	Order     []int        `json:"order"` // pool iteration order: indices into Txns (an index may repeat)
 }
 
+var exnames = []string{"", "pour", "wait"}
 var bnames = []string{"", "payFees", "commit_settings_changes", "blobber_block_rewards", "generate_challenge"}
 
 const round = 10
@@ -72,6 +75,8 @@ func fname(s TxnSpec) string {
 		return "ok_1"
 	case 6:
 		return bnames[s.BName]
+	case 7:
+		return exnames[s.ExName]
 	}
 	return ""
 }
@@ -126,6 +131,10 @@ type txnInfo struct {
 	valid   bool
 	fnameK  int
 	size    int
+	gcost   int
+	gfee    uint64
+	gerr    bool
+	exempt  bool
 }
 
 type result struct {
@@ -176,7 +185,7 @@ func scriptCosts(c Case) map[string]int {
 	m := map[string]int{}
 	for _, s := range c.Txns {
 		switch s.Kind {
-		case 1, 2, 6:
+		case 1, 2, 6, 7:
 			m[fname(s)] = s.CostK
 		case 4:
 			m["ok_1"] = 1
@@ -212,6 +221,13 @@ func run(c Case) (res result) {
 		inf := txnInfo{tok: byHash[t.Hash], size: len(t.TransactionData)}
 		cost, err := g.C.EstimateTransactionCost(ctx, lfb, t)
 		inf.cost, inf.costErr = cost, err != nil
+		gc, gf, gerr := g.C.EstimateTransactionCostFee(ctx, lfb, t)
+		inf.gcost, inf.gfee, inf.gerr = gc, uint64(gf), gerr != nil
+		for _, n := range c.Cfg.Exempt {
+			if t.TransactionData != "" && n == t.FunctionName {
+				inf.exempt = true
+			}
+		}
 		inf.valid = t.ValidateWrtTimeForBlock(ctx, t.CreationDate, true) == nil
 		if t.TransactionType == transaction.TxnTypeSmartContract && miner.VerifIsBuildInTxnName(t.FunctionName) {
 			for k, n := range bnames {
@@ -223,6 +239,9 @@ func run(c Case) (res result) {
 		res.infos[i] = inf
 	}
 	// built-in templates the generator will create (order of buildInTxns)
+	if c.Cfg.FeeEnabled {
+		res.biToks = append(res.biToks, 1001)
+	}
 	if c.Challenge {
 		res.biToks = append(res.biToks, 1004)
 	}
@@ -234,6 +253,9 @@ func run(c Case) (res result) {
 		tt.ClientID = conch.MinerKey.ID
 		tt.PublicKey = conch.MinerKey.Pub
 		tt.ToClientID = "6dba10422e368813802877a85039d3985d96760ed844092319743fb3a76712d7"
+		if tok == 1001 {
+			tt.ToClientID = "6dba10422e368813802877a85039d3985d96760ed844092319743fb3a76712d9"
+		}
 		tt.TransactionType = transaction.TxnTypeSmartContract
 		tt.TransactionData = fmt.Sprintf(`{"name":"%s","input":{"round":%d}}`, bnames[tok-1000], round)
 		_ = tt.ComputeProperties()
@@ -352,6 +374,12 @@ func run(c Case) (res result) {
 			}
 		}
 	}
+	for _, ix := range c.Order {
+		inf := res.infos[ix]
+		if !inf.costErr && !inf.gerr && inf.gcost != inf.cost {
+			viol("generator-cost-differs-from-verifier-cost", fmt.Sprintf("pool transaction %d (%s): EstimateTransactionCostFee budgets it at %d, EstimateTransactionCost (verifier, promoted loop) at %d", ix, fname(c.Txns[ix]), inf.gcost, inf.cost))
+		}
+	}
 	seen := map[string]bool{}
 	for _, t := range b.Txns {
 		if seen[t.Hash] {
@@ -412,17 +440,17 @@ func optZ(ok bool, v int) string {
 	return vh.Some(vh.Z(int64(v)))
 }
 
-func coqTxn(tok, client int, nonce int64, fee uint64, cdate int64, valbig bool, cost string, size, fn int, valid bool, kind int, value uint64, to int) string {
+func coqTxn(tok, client int, nonce int64, fee uint64, cdate int64, valbig bool, cost, gcost string, gfee uint64, exempt bool, size, fn int, valid bool, kind int, value uint64, to int) string {
 	// positional constructor application (elaborates twice as fast as record syntax):
-	// hash client nonce fee cdate valbig cost size fname valid kind value to
-	return fmt.Sprintf("(Build_bg_txn %d %d %s %d %s %s %s %d %d %s %d %d %d)",
-		tok, client, vh.Z(nonce), fee, vh.Z(cdate), vh.Bool(valbig), cost, size, fn, vh.Bool(valid), kind, value, to)
+	// hash client nonce fee cdate valbig cost gcost gfee exempt size fname valid kind value to
+	return fmt.Sprintf("(Build_bg_txn %d %d %s %d %s %s %s %s %d %s %d %d %s %d %d %d)",
+		tok, client, vh.Z(nonce), fee, vh.Z(cdate), vh.Bool(valbig), cost, gcost, gfee, vh.Bool(exempt), size, fn, vh.Bool(valid), kind, value, to)
 }
 
 func coqCase(c Case, r result) string {
 	now0 := r.now0 // dates are emitted relative to now0 (WithinTime is translation invariant)
-	cfg := fmt.Sprintf("{| bc_maxcost := %d; bc_maxbytes := %d; bc_tol := 600; bc_bdate := %s; bc_miner := %d |}",
-		c.Cfg.MaxBlockCost, c.Cfg.MaxByteSize, vh.Z(r.bdate-now0), minerTok)
+	cfg := fmt.Sprintf("{| bc_maxcost := %d; bc_maxbytes := %d; bc_tol := 600; bc_bdate := %s; bc_miner := %d; bc_fee := %s; bc_minfee := %d |}",
+		c.Cfg.MaxBlockCost, c.Cfg.MaxByteSize, vh.Z(r.bdate-now0), minerTok, vh.Bool(c.Cfg.FeeEnabled), c.Cfg.MinFee)
 	var accts []string
 	for _, a := range c.Accts {
 		accts = append(accts, vh.Pair(vh.Z(int64(a.Client)), vh.Pair(vh.Z(a.Nonce), vh.ZU(a.Bal))))
@@ -432,7 +460,7 @@ func coqCase(c Case, r result) string {
 		s := c.Txns[ix]
 		inf := r.infos[ix]
 		kind := s.Kind
-		if kind == 6 {
+		if kind == 6 || kind == 7 {
 			kind = 1
 		}
 		val := s.Value
@@ -440,11 +468,11 @@ func coqCase(c Case, r result) string {
 			val = cconfig.MaxTokenSupply + 1
 		}
 		pool = append(pool, coqTxn(inf.tok, s.Client, s.Nonce, s.Fee, s.DateOff, s.ValBig && s.Kind == 0,
-			optZ(!inf.costErr, inf.cost), inf.size, inf.fnameK, inf.valid, kind, val, s.To))
+			optZ(!inf.costErr, inf.cost), optZ(!inf.gerr, inf.gcost), inf.gfee, inf.exempt, inf.size, inf.fnameK, inf.valid, kind, val, s.To))
 	}
 	var bis []string
 	for j, tok := range r.biToks {
-		bis = append(bis, coqTxn(tok, minerTok, 0, 0, r.bdate-now0, false, optZ(r.biCosts[j] >= 0, r.biCosts[j]), 0, tok-1000, true, 5, 0, 0))
+		bis = append(bis, coqTxn(tok, minerTok, 0, 0, r.bdate-now0, false, optZ(r.biCosts[j] >= 0, r.biCosts[j]), optZ(r.biCosts[j] >= 0, r.biCosts[j]), 0, false, 0, tok-1000, true, 5, 0, 0))
 	}
 	gen := "None"
 	if r.genErr == "" {
@@ -513,8 +541,10 @@ func genCase(r *vh.Rand, maxPool int) Case {
 			s.Kind, s.CostK = 1, costs[r.Intn(len(costs))]
 		case x < 85:
 			s.Kind, s.CostK = 2, costs[r.Intn(len(costs))]
-		case x < 90:
+		case x < 88:
 			s.Kind = 3
+		case x < 90:
+			s.Kind, s.ExName, s.CostK = 7, r.Range(1, 2), []int{5, 10}[0]
 		case x < 94:
 			s.Kind, s.To = 4, r.Range(1, 3)
 		default:
@@ -557,7 +587,7 @@ func genCase(r *vh.Rand, maxPool int) Case {
 		switch c.Txns[ix].Kind {
 		case 0:
 			sum += tc
-		case 1, 2, 6:
+		case 1, 2, 6, 7:
 			sum += c.Txns[ix].CostK
 		}
 	}
@@ -568,7 +598,22 @@ func genCase(r *vh.Rand, maxPool int) Case {
 		floor = 100 // the limit is configured above the cost of the generator's own built-in transactions
 	}
 	c.Cfg = conch.Cfg{TransferCost: tc, FutureNonce: r.Range(1, 20), MaxByteSize: 1 << 20, BatchSize: r.Range(1, 5),
-		MaxBlockCost: sum + r.Range(-1, 1)}
+		MaxBlockCost: sum + r.Range(-1, 1), Exempt: []string{"pour", "wait"}}
+	if r.Chance(1, 3) {
+		// fees on: payFees built-in, ValidateFee against max(MinTxnFee, estimated fee = cost), fee paid to the miner contract
+		c.Cfg.FeeEnabled = true
+		c.Cfg.MinFee = r.PickU64([]uint64{0, 0, 3, 8})
+		for i := range c.Txns {
+			k := uint64(c.Txns[i].CostK)
+			if c.Txns[i].Kind == 0 {
+				k = uint64(tc)
+			}
+			c.Txns[i].Fee = r.PickU64([]uint64{0, k, k, k + 1, k + 1, 30, 30, c.Cfg.MinFee})
+			if k > 0 && r.Chance(1, 6) {
+				c.Txns[i].Fee = k - 1
+			}
+		}
+	}
 	if r.Chance(1, 3) {
 		c.Cfg.MaxBlockCost = 100000
 	}
@@ -667,6 +712,43 @@ func genPromo(r *vh.Rand) Case {
 	return c
 }
 
+// genExempt: pools of fee-exempt contract calls (the branch of EstimateTransactionCostFee that
+// returns before computing a fee) mixed with ordinary calls, equal costs, limit at j*c-1/j*c/j*c+1,
+// fees on or off.
+func genExempt(r *vh.Rand) Case {
+	var c Case
+	cost := []int{5, 20, 100}[r.Intn(3)]
+	c.Cfg = conch.Cfg{TransferCost: cost, FutureNonce: 20, MaxByteSize: 1 << 20, BatchSize: r.Range(1, 4), Exempt: []string{"pour", "wait"},
+		FeeEnabled: r.Bool(), MinFee: r.PickU64([]uint64{0, 2})}
+	n := r.Range(2, 6)
+	nc := r.Range(1, 3)
+	next := map[int]int64{}
+	for i := 1; i <= nc; i++ {
+		c.Accts = append(c.Accts, conch.Acct{Client: i, Nonce: int64(r.Intn(2)), Bal: 1 << 40})
+		next[i] = c.Accts[i-1].Nonce + 1
+	}
+	for i := 0; i < n; i++ {
+		cl := r.Range(1, nc)
+		t := TxnSpec{Client: cl, Nonce: next[cl], CostK: cost, DateOff: int64(r.Range(-100, 100))}
+		next[cl]++
+		if r.Chance(3, 4) {
+			t.Kind, t.ExName = 7, r.Range(1, 2)
+			t.Fee = r.PickU64([]uint64{0, 0, uint64(cost)})
+		} else {
+			t.Kind = 1
+			t.Fee = r.PickU64([]uint64{uint64(cost), uint64(cost) + 1, 0})
+		}
+		c.Txns = append(c.Txns, t)
+		c.Order = append(c.Order, i)
+	}
+	floor := 0
+	if c.Cfg.FeeEnabled {
+		floor = 100 // payFees
+	}
+	c.Cfg.MaxBlockCost = floor + r.Range(1, n)*cost + r.Range(-1, 1)
+	return c
+}
+
 func key(c Case) string {
 	b, _ := json.Marshal(c)
 	h := sha256.Sum256(b)
@@ -751,6 +833,20 @@ func main() {
 		Order: []int{0, 1, 2}})
 	for i := 0; i < o.N(80, 800); i++ {
 		handle(genPromo(rnd))
+	}
+	// fee-exempt contract calls against a tight budget, fees off and on
+	for _, fe := range []bool{false, true} {
+		floor := 0
+		if fe {
+			floor = 100
+		}
+		handle(Case{Cfg: conch.Cfg{MaxBlockCost: floor + 250, TransferCost: 10, FutureNonce: 20, MaxByteSize: 1 << 20, BatchSize: 2, Exempt: []string{"pour", "wait"}, FeeEnabled: fe},
+			Accts: []conch.Acct{{Client: 1, Nonce: 0, Bal: 1 << 40}},
+			Txns: []TxnSpec{{Client: 1, Nonce: 1, Kind: 7, ExName: 1, CostK: 100}, {Client: 1, Nonce: 2, Kind: 7, ExName: 1, CostK: 100}, {Client: 1, Nonce: 3, Kind: 7, ExName: 1, CostK: 100}},
+			Order: []int{0, 1, 2}})
+	}
+	for i := 0; i < o.N(60, 600); i++ {
+		handle(genExempt(rnd))
 	}
 	// exhaustive: every ordered pool of up to L entries over six shapes, two senders
 	shapes := []TxnSpec{
